@@ -2,6 +2,7 @@ package rules
 
 import (
 	"go/ast"
+	"go/token"
 
 	"kadcheck/internal/eng"
 )
@@ -198,6 +199,48 @@ func runC13(c *Ctx) {
 				})
 				okLoops = okLoops && !early
 			}
+			// nothing but the stream's own protocol and direction decides whether it is reset
+			extra := ""
+			for _, ce := range cf.DominatingConds(loc) {
+				okCond := true
+				var leaves []ast.Expr
+				var collect func(e ast.Expr)
+				collect = func(e ast.Expr) {
+					e = eng.Unparen(e)
+					if u, ok := e.(*ast.UnaryExpr); ok && u.Op == token.NOT {
+						collect(u.X)
+						return
+					}
+					if b, ok := e.(*ast.BinaryExpr); ok && (b.Op == token.LAND || b.Op == token.LOR) {
+						collect(b.X)
+						collect(b.Y)
+						return
+					}
+					leaves = append(leaves, e)
+				}
+				collect(ce.Cond)
+				for _, l := range leaves {
+					if !eng.Mentions(info, l, eng.ObjOf(info, strm)) {
+						// a membership test through `_, ok := set[s.Protocol()]`
+						if o := eng.ObjOf(info, l); o != nil {
+							isMember := false
+							for _, d := range f.AssignedFrom(o) {
+								if d != nil && eng.Mentions(info, d, eng.ObjOf(info, strm)) {
+									isMember = true
+								}
+							}
+							if isMember {
+								continue
+							}
+						}
+						okCond = false
+					}
+				}
+				if !okCond {
+					extra = short(ce.Cond)
+				}
+			}
+			c.Check(K(f.Name, "no other filter"), r.Pos(), extra == "", "whether a stream is reset depends on that stream's protocol and direction only (not, for instance, on who opened the connection)", "the reset is also conditional on "+extra)
 			c.Check(K(f.Name, "every stream of every connection"), r.Pos(), okLoops, "all streams of all connections are examined", "loops are not over Conns()/GetStreams() or can exit early")
 		}
 		g := c.Fn("(*dht.IpfsDHT).moveToServerMode")
